@@ -674,6 +674,9 @@ func runGrpcDirect(m map[string]string) string {
 // (other checks run on the same machine): an engine run that did not end, a dial / TLS-handshake / response timeout
 // without a silent target, a client-side gRPC Unavailable / DeadlineExceeded, exhausted ports or descriptors.
 func suspicious(m map[string]string, input, obs string) bool {
+	if m["k"] == "errno" || m["k"] == "idstress" {
+		return false // no network, no engine
+	}
 	if strings.Contains(obs, "res=hang") || strings.Contains(obs, "errno99") || strings.Contains(obs, "errno24") ||
 		strings.Contains(obs, "address already in use") || strings.Contains(obs, "warmup-error") || strings.Contains(obs, "bind-error") {
 		return true
@@ -704,7 +707,13 @@ func run(input string) string {
 	m := drv.KV(input)
 	obs := run1(m)
 	for try := 0; try < 2 && suspicious(m, input, obs); try++ {
-		retries.Add(1)
+		if retries.Add(1) <= 40 {
+			o := obs
+			if len(o) > 300 {
+				o = o[:300]
+			}
+			fmt.Fprintf(os.Stderr, "c10: re-taking %.60s : %s\n", input, o)
+		}
 		time.Sleep(time.Duration(2+3*try) * time.Second)
 		obs = run1(m)
 	}
@@ -811,12 +820,16 @@ var failScripts = []string{"actclose", "actreset", "actgarbage", "actbadhdr", "s
 
 // randDims draws the option dimensions that must NOT influence a sample (answlog, httptrace, debug logging, shared
 // client): about half of the cases run with the defaults.
+var alogOneIn = 2
+
 func randDims(r *rand.Rand, shared bool) string {
 	if r.Intn(2) == 0 {
 		return ""
 	}
 	var d []string
-	if r.Intn(2) == 0 {
+	// every answlog gun factory opens its log file and never closes it (one descriptor per case for the life of the
+	// driver process): rarer on the long tier
+	if r.Intn(alogOneIn) == 0 {
 		d = append(d, "alog="+[]string{"all", "warning", "error"}[r.Intn(3)])
 	}
 	if r.Intn(3) == 0 {
@@ -875,6 +888,9 @@ func allShapes(depth int) []string {
 
 func gen(r *rand.Rand, tier string) []string {
 	thorough := tier == "thorough"
+	if thorough {
+		alogOneIn = 16
+	}
 	pick := func(q, t int) int {
 		if thorough {
 			return t
@@ -883,7 +899,7 @@ func gen(r *rand.Rand, tier string) []string {
 	}
 	var out []string
 	// 1. every status 100..599, exhaustively, in runs of 50; settings and option dimensions rotate
-	for rep := 0; rep < pick(1, 6); rep++ {
+	for rep := 0; rep < pick(1, 12); rep++ {
 		for base := 100; base < 600; base += 50 {
 			var reqs []string
 			for st := base; st < base+50; st++ {
@@ -986,7 +1002,7 @@ func gen(r *rand.Rand, tier string) []string {
 		}
 	}
 	// 5b. random settings x URI shapes x outcomes x option dimensions
-	nTag := pick(40, 2500)
+	nTag := pick(40, 12000)
 	for i := 0; i < nTag; i++ {
 		var reqs []string
 		for j := 0; j < 12; j++ {
@@ -997,7 +1013,7 @@ func gen(r *rand.Rand, tier string) []string {
 	}
 	// 5c. SEVERAL concurrently shooting instances: every ammo carries the unique tag r<i>, so that each sample can be
 	// attributed to its request whatever id the interleaving of the Acquire calls gave it
-	nMulti := pick(12, 500)
+	nMulti := pick(12, 2400)
 	for i := 0; i < nMulti; i++ {
 		n := 8 + r.Intn(pick(24, 72))
 		var reqs []string
@@ -1011,7 +1027,7 @@ func gen(r *rand.Rand, tier string) []string {
 		out = append(out, httpCase([]string{"http", "http", "connect"}[r.Intn(3)], "live", r.Intn(2) == 0, 1+r.Intn(3), false, extra, reqs))
 	}
 	// 6. http scenarios (plain and over HTTP/2)
-	nScn := pick(30, 5000)
+	nScn := pick(30, 24000)
 	for i := 0; i < nScn; i++ {
 		k := 1 + r.Intn(4)
 		h2 := i%10 == 9
@@ -1057,7 +1073,7 @@ func gen(r *rand.Rand, tier string) []string {
 		out = append(out, c+" steps="+strings.Join(steps, ";"))
 	}
 	// 7. gRPC: every code 0..16, out-of-range codes, unknown method, ill-typed payload; answlog filters, shared client
-	for rep := 0; rep < pick(2, 40); rep++ {
+	for rep := 0; rep < pick(2, 14); rep++ {
 		var reqs []string
 		for c := 0; c <= 16; c++ {
 			kind := "code"
@@ -1086,10 +1102,12 @@ func gen(r *rand.Rand, tier string) []string {
 		}
 		out = append(out, "k=grpc reqs="+strings.Join(reqs, ";"), "k=grpc to=700 alog=all reqs=hg,hang,0;,ok,0")
 	}
-	nG := pick(6, 1500)
+	// (a gRPC gun never closes its client connection: one descriptor per case stays open in the driver process, so the
+	// long tier makes the cases longer rather than more numerous)
+	nG := pick(6, 600)
 	for i := 0; i < nG; i++ {
 		var reqs []string
-		for j := 0; j < 10; j++ {
+		for j := 0; j < pick(10, 60); j++ {
 			kind := []string{"ok", "code", "code", "code", "nomethod", "badpayload"}[r.Intn(6)]
 			reqs = append(reqs, fmt.Sprintf("%s,%s,%d", tagPool[r.Intn(len(tagPool))], kind, 1+r.Intn(20)))
 		}
@@ -1100,7 +1118,7 @@ func gen(r *rand.Rand, tier string) []string {
 		out = append(out, "k=grpc"+opts+" reqs="+strings.Join(reqs, ";"))
 	}
 	// 8. gRPC scenarios
-	nGS := pick(12, 3000)
+	nGS := pick(12, 1500)
 	for i := 0; i < nGS; i++ {
 		k := 1 + r.Intn(4)
 		var calls []string
@@ -1116,7 +1134,7 @@ func gen(r *rand.Rand, tier string) []string {
 		if i%3 == 2 {
 			opts = []string{" alog=all", " alog=error", " dbg=1"}[r.Intn(3)]
 		}
-		out = append(out, fmt.Sprintf("k=grpcscn%s scn=g%d n=%d calls=%s", opts, i%2, 1+r.Intn(2), strings.Join(calls, ";")))
+		out = append(out, fmt.Sprintf("k=grpcscn%s scn=g%d n=%d calls=%s", opts, i%2, 1+r.Intn(pick(2, 6)), strings.Join(calls, ";")))
 	}
 	if thorough {
 		// every code as the single call of a scenario
@@ -1141,7 +1159,7 @@ func gen(r *rand.Rand, tier string) []string {
 		out = append(out, "k=ids prov=uri inst=32 n=4000", "k=ids prov=uri inst=1 n=50", "k=ids prov=uri inst=128 n=3000", "k=ids prov=uripost inst=64 n=3000 pre=1")
 	}
 	// 10. getErrno: EXHAUSTIVELY on every chain of <= d wrappers over every kind of leaf, then random deeper chains
-	for _, sh := range allShapes(pick(2, 5)) {
+	for _, sh := range allShapes(pick(2, 6)) {
 		out = append(out, "k=errno shape="+sh)
 	}
 	nE := pick(300, 30000)
@@ -1228,14 +1246,20 @@ var retries atomic.Int64
 
 func main() {
 	_ = sort.Strings
-	defer func() { fmt.Fprintf(os.Stderr, "c10: %d observations re-taken (suspected host overload)\n", retries.Load()) }()
+	defer func() {
+		nfd := -1
+		if ents, err := os.ReadDir("/proc/self/fd"); err == nil {
+			nfd = len(ents)
+		}
+		fmt.Fprintf(os.Stderr, "c10: %d observations re-taken (suspected host overload); %d descriptors open at the end\n", retries.Load(), nfd)
+	}()
 	drv.Main(&drv.Prop{
 		ID:      "C10",
 		Gen:     gen,
 		Run:     run,
 		Class:   class,
 		Workers: 8,
-		Timeout: 90 * time.Second,
+		Timeout: 150 * time.Second,
 		Rule: "real guns (plugin factories, real providers, core/engine) against scripted targets: every status 100-599, refusal, reset, close, garbage, " +
 			"truncated bodies, silence, TLS/HTTP2, the documented http2 fatal; every gun kind (http, http2, connect, http/scenario, http2/scenario, grpc, grpc/scenario) " +
 			"x option dimensions that must not matter (answlog filters, httptrace, debug logging, shared client); gRPC codes 0-16 (thorough 0-300) and out-of-range; " +
